@@ -13,7 +13,7 @@ ID = 'C12'
 LEVEL = 'exploration'
 INCLUDE = spaces.C02_SIX + ['n_geos_max', 'n_pretest_max']
 RULE = ('Engine A (metamorphic): every base case of DEV(3,d) u DEV(4,d) (d = 1 | 2; + hand-picked 2-deviation cases in '
-        'quick; + panels with duplicate (geo,date) rows and with a missing cell), both searches, is re-run under 16 presentations: 3 row permutations (reverse, rotation, interleave), '
+        'quick; + panels with duplicate (geo,date) rows and with a missing cell), both searches, is re-run under 20 presentations: 7 row permutations (reverse, rotation, interleave, 4 fixed pseudo-random shuffles), '
         '3 date offsets (+1 d, -400 d, +3653 d), IDs int<->str / object column of ints / categorical, 2 renamings that reverse the lexicographic order '
         '(eligibility renamed alike), scale c in {2^-20, 2^-3, 2, 2^10, 2^30} with the budget range scaled alike. Oracle: same designs '
         'after mapping IDs back (groups, verdicts, rounded correlation; impact and last score entry equal, or scaled '
@@ -71,6 +71,17 @@ def search(case, rows=None, idmap=None, id_type='int', scale=1.0):
                     'score': [float(v) for v in d.score.score], 'corr': float(d.diag.corr),
                     'ri': float(d.diag.required_impact)})
     return ('ok', out)
+
+
+def shuffled(rows, k):
+    """A fixed pseudo-random permutation (LCG, Fisher-Yates) - in particular the order in which geos first APPEAR changes."""
+    from mc.panels import _lcg
+    g = _lcg(1000 + k)
+    out = list(rows)
+    for i in range(len(out) - 1, 0, -1):
+        j = next(g) % (i + 1)
+        out[i], out[j] = out[j], out[i]
+    return out
 
 
 def shift(rows, days):
@@ -155,6 +166,10 @@ def run_case(case):
         ('rows-reversed', dict(rows=rows[::-1])),
         ('rows-rotated', dict(rows=rows[n // 3:] + rows[:n // 3])),
         ('rows-interleaved', dict(rows=rows[1::2] + rows[0::2])),
+        ('rows-shuffled-1', dict(rows=shuffled(rows, 1))),
+        ('rows-shuffled-2', dict(rows=shuffled(rows, 2))),
+        ('rows-shuffled-3', dict(rows=shuffled(rows, 3))),
+        ('rows-shuffled-4', dict(rows=shuffled(rows, 4))),
         ('dates+1d', dict(rows=shift(rows, 1))),
         ('dates-400d', dict(rows=shift(rows, -400))),
         ('dates+10y', dict(rows=shift(rows, 3653))),
